@@ -642,3 +642,7 @@ Fixpoint cbor_value (stack depth : nat) : outcome unit :=
   | O => Ok tt
   | S d => match stack with O => Abort | S st => cbor_value st d end
   end.
+
+(* the lowercase mapping the loader is run with: ASCII below 128, a table supplied by the harness above *)
+Definition ascii_lower (c : N) : N := if (65 <=? c) && (c <=? 90) then c + 32 else c.
+Definition lower_with (hi : N -> str) (c : N) : str := if c <? 128 then [ascii_lower c] else hi c.
